@@ -12,6 +12,7 @@ package props
 // c16_range.go (section b), c16_diff.go (section c).
 
 import (
+	"golang.org/x/sys/cpu"
 	"bytes"
 	"encoding/binary"
 	"encoding/hex"
@@ -286,6 +287,8 @@ type c16run struct {
 
 	noteMu sync.Mutex
 	noted  map[string]bool
+
+	genericPath bool // the pass with AVX2 switched off is running
 }
 
 // a c16task is one unit of (possibly parallel) work with its own deterministic RNG.
@@ -325,6 +328,11 @@ func (t *c16task) violate(key, what string, replay map[string]any, exp, obs stri
 	}
 	replay["seed"] = t.r.c.Seed
 	replay["tier"] = t.r.c.Tier
+	if t.r.genericPath {
+		key += ":generic-path"
+		what = "[AVX2 switched off: portable hashing path] " + what
+		replay["generic_path"] = true
+	}
 	if len(what) > 600 {
 		what = what[:600] + "..."
 	}
@@ -524,6 +532,21 @@ func runC16(c *fw.Ctx) {
 			}
 		})
 	})
+	// the same roots and proofs on the portable (non-AVX2) hashing path: the sector accumulators call the 4-way
+	// hashing IN PLACE (output = first half of the input), which only the root functions exercise
+	if cpu.X86.HasAVX2 {
+		cpu.X86.HasAVX2 = false
+		r.genericPath = true
+		r.section("GENERIC-PATH hash-list-roots", r.secHashLists)
+		r.section("GENERIC-PATH byte-stream-roots", r.secByteStreams)
+		r.section("GENERIC-PATH sectors+leaf-range-proofs", r.secSectors)
+		r.section("GENERIC-PATH append-proofs", r.secAppend)
+		r.genericPath = false
+		cpu.X86.HasAVX2 = true
+		r.res.Count("generic-path-pass")
+	} else {
+		r.res.Note("this CPU has no AVX2: the portable path is the only path exercised")
+	}
 	tGo := time.Since(t0)
 	t1 := time.Now()
 	r.compareAll()
